@@ -341,6 +341,31 @@ def run(ctx: Ctx) -> int:
         construct="root types have arms",
     )
 
+    # ---------------- C02.f hints reach the adapter as declared ------------------------------------------------------
+    # (1) names that exist in both typing and typing_extensions are taken from typing_extensions whenever it is there:
+    #     the shadow capture (_capture_typing_extension_shadows) only ADDS the typing variant when the primary one is
+    #     typing_extensions' - the other way round typing_extensions' TypedDict metaclass is missing from the tables
+    #     and such TypedDicts are accepted unchecked
+    from .util import guard_atoms
+
+    tei = ctx.func("_optionals:typing_extensions_import")
+    te_rets = [r for r in walk_local(tei) if isinstance(r, ast.Return) and "typing_extensions" in ast.unparse(r.value)]
+    ctx.need(te_rets, "typing_extensions_import: return getattr(__import__('typing_extensions'), name, ...)")
+    for r in te_rets:
+        atoms = guard_atoms(r, stop=tei)
+        ok = len(atoms) == 1 and atoms[0][1] and isinstance(atoms[0][0], ast.Name) and "typing_extensions" in atoms[0][0].id
+        ctx.oblige("C02.f", ok, r, "typing_extensions' object is used whenever typing_extensions is available" if ok else f"typing_extensions' object is only used under {[ast.unparse(t) for t, _ in atoms]}: with the typing variant as primary the typing_extensions variant of _TypedDictMeta is in no table - a typing_extensions.TypedDict value is accepted without any key or type check", fn=tei)
+    # (2) a hint rebuilt after resolving forward references keeps EVERY argument: one append per argument, unconditional
+    rfr = ctx.func("_postponed_annotations:resolve_forward_refs")
+    from .util import nested_defs as _nd
+
+    rs_ = _nd(rfr).get("resolve_subtypes_forward_refs")
+    ctx.need(rs_, "resolve_forward_refs.resolve_subtypes_forward_refs")
+    for lp in [x for x in walk_local(rs_) if isinstance(x, ast.For) and "__args__" in ast.unparse(x.iter)]:
+        apps = [c for c in calls_in(lp) if call_leaf(c) == "append"]
+        ok = len(apps) == 1 and not guard_chain(apps[0], stop=lp) and any(isinstance(s, ast.Expr) and s.value is apps[0] for s in lp.body)
+        ctx.oblige("C02.f", ok, apps[0] if apps else lp, "every argument of the hint is carried over into the rebuilt hint" if ok else "the append that collects the arguments of the rebuilt hint is conditional: resolved forward references are dropped - Tuple['Color', int] becomes tuple[int], so [5] is accepted and ['RED', 5] rejected", fn=rs_)
+
     return ctx.finish(
         explanation=(
             "(a) The Union arm of adapt_typehints is abstracted to a finite automaton over per-iteration symbols V (member accepted, break), O (string fallback appended), "
